@@ -1,5 +1,5 @@
 //! C16 — SET components in canonical tag order (X.680 8.6), tags per X.680; SEQUENCE textual.
-//! (a) expand level: every permutation of every <=k subset of the 13-component pool x marker
+//! (a) expand level: every permutation of every <=k subset of the 16-component pool x marker
 //!     position, as SET and SEQUENCE, through the REAL front end + generator + attribute parser +
 //!     expand(): order of write_value/read_value calls and TAG constants;
 //! (b) wire level: the compiled permutations (<=2 / <=3 components, every second one OPTIONAL)
@@ -234,7 +234,7 @@ pub fn run(args: &Args) -> ! {
     cov.insert("traces_validated_against_impl".into(), json!(wire_cases));
     cov.insert("expand_level".into(), json!({"definitions_expanded": space.len(), "max_components": if ctx.thorough { 5 } else { 3 }, "pool": pool().iter().map(|c| format!("{} {}{}", c.name, c.tag.map(|t| t.asn() + " ").unwrap_or_default(), c.ty.asn())).collect::<Vec<_>>()}));
     cov.insert("wire_level".into(), json!({"compiled_types": wire_types, "type_value_cases": wire_cases}));
-    cov.insert("rule".into(), json!("(a) every permutation of every <=k subset of the 13-component pool x marker position {none, after i} (additions in ascending tag order), as SET and as SEQUENCE, is printed, run through the real front end + generator + attribute re-parser + expand(); the order of write_value calls and of read_seq's struct-literal fields must equal the X.680 8.6 canonical order of the ROOT components followed by the additions (SEQUENCE: textual), and every field's TAG constant the X.680 tag (explicit, referenced type's, or automatic only if no component is tagged). (b) the compiled permutations: bits == refper for every presence pattern. non-trivial = >= 2 components (order can matter)"));
+    cov.insert("rule".into(), json!("(a) every permutation of every <=k subset of the 16-component pool x marker position {none, after i} (additions in ascending tag order), as SET and as SEQUENCE, is printed, run through the real front end + generator + attribute re-parser + expand(); the order of write_value calls and of read_seq's struct-literal fields must equal the X.680 8.6 canonical order of the ROOT components followed by the additions (SEQUENCE: textual), and every field's TAG constant the X.680 tag (explicit, referenced type's, or automatic only if no component is tagged). (b) the compiled permutations: bits == refper for every presence pattern. non-trivial = >= 2 components (order can matter)"));
     cov.insert("samples".into(), json!([{"set": true, "components": "c3 [3], x [UNIVERSAL 30], rs Tsq", "expected_order": "x, rs, c3"}, space.get(1234.min(space.len() - 1)).map(|c| json!({"set": c.set, "ord": c.ord, "marker": c.marker, "asn": build(c).1.asn()}))]));
     report.finish(cov, vec!["expected order/tags come from vcore::refper::{comp_tags, root_order} (X.680 8.6, 25.x, 29.x), validated against the repository's playground SET vectors".into()])
 }
